@@ -1,20 +1,30 @@
 """C13: the adaptive driver honours its stopping rules and reports truthful numbers.
 
-Correspondence: every case is run twice on the real strategies (probe run with generous limits -> observation
-stream; test run with limits chosen ON the observed values, i.e. ties).  The extracted model (Model/Driver.v) gets the
-observation streams and limits and must reproduce the event trace (evaluate / refine calls), the stop index and the
-returned history arrays; get_global_error_estimate, set_benefit and the distinct point count are recomputed by the
-model from the result vector, the per-object numbers and the raw log of integrand evaluations."""
+Correspondence: every adaptive case is a probe run (generous limits -> observation stream) followed by a test HISTORY on one object:
+performSpatiallyAdaptiv and 0-3 continue_adaptive_refinement calls whose limits are drawn independently per call (ON observed values =
+ties, 0, tighter / looser / equal than the previous call, arguments left to their defaults, positional calls; see _legs.py).  The
+extracted model (Model/Driver.v) resolves the arguments of every call itself (defaults of the two entry points) and must reproduce
+the event trace (evaluate / refine calls), the stop index and the returned history arrays of every call (a) from the call's own
+observed stream (api_run) and (b) for the whole history from the probe stream alone (legs_on_stream: each call re-evaluates the
+position the previous one stopped at); get_global_error_estimate, set_benefit and the distinct point count are recomputed by the model
+from the result vector, the per-object numbers and the raw log of integrand evaluations.  The property predicate (oracle_adaptive)
+judges every call by the limits its own arguments express, on the implementation alone."""
+import json
 import random
+import time
 from fractions import Fraction
 
 from .. import sx
 from ..impl import run_impl
 from ..model import run_model
 from . import _adaptive as A
+from . import _legs as LG
 
 ASSUMPTIONS = [
     'max_time (wall clock) stopping condition is not modelled and never used',
+    'defaults of the entry points (tol 10**-2 / 10**-3, min_evaluations 1, max_evaluations None) are constants of the model and of the predicate',
+    'evaluation_points: analytic reference evaluations (operation.eval_analytic) are not counted as integrand evaluations of the quadrature; '
+    'a point count taken before or after the interpolation is accepted',
     'floating point error values are compared with the exact model value up to 1e-12 relative (tolerance policy); '
     'the stopping decisions themselves are compared exactly (limits are chosen among the observed floats)',
     'norm 2 is modelled as its square (mean of squares), compared after squaring the reported value',
@@ -28,11 +38,13 @@ EPS = 1e-12
 
 def gen_case(rng, quick=True):
     r = rng.random()
-    strat = 'dw' if r < 0.38 else 'es' if r < 0.76 else 'da' if r < 0.90 else 'std'
+    strat = 'dw' if r < 0.34 else 'es' if r < 0.68 else 'cell' if r < 0.77 else 'da' if r < 0.90 else 'std'
     dim = 2 if rng.random() < (0.8 if strat != 'dw' else 0.7) else 3
     a = [rng.choice([0, 0, -1]) for _ in range(dim)]
     b = [rng.choice([1, 1, 2]) for _ in range(dim)]
     nout = rng.choice([1, 1, 2, 3])
+    if strat in ('dw', 'es', 'std') and dim == 2 and rng.random() < 0.05:
+        nout = rng.choice([17, 65, 130])        # long result vectors (norms over many components; beyond typical block sizes)
     comps = A.gen_comps(rng, dim, nout)
     if strat == 'da':
         # DimAdaptiveCombi loops forever in its refinement selection when all surpluses vanish (odd integrands on symmetric
@@ -55,22 +67,61 @@ def gen_case(rng, quick=True):
         ref = [x if x != 0.0 else 1.0 for x in ([float(x) for x in exact] if ref is None else ref)]   # perform_combi asserts/divides
     case = dict(strat=strat, a=a, b=b, comps=comps, ref=ref, norm=rng.choice([0, 0, 1, 2]), boundary=rng.random() < 0.8,
                 lmin=1, lmax=2, seed=rng.randrange(1 << 30))
-    if strat in ('dw', 'es'):
-        # short histories on one object: the test run reuses the probe's operation (as the repo's tests do) or the instance itself
-        case['reuse'] = rng.choice([None, None, 'op', 'op', 'instance'])
+    if strat in ('dw', 'es', 'cell'):
+        # histories on one object: the test history reuses the probe's operation (as the repo's tests do) or the instance itself
+        # (a second performSpatiallyAdaptiv on the same cell-scheme instance does not terminate: its refinement finds nothing to
+        #  refine in the stale class-level cell bookkeeping; outside the driver, excluded)
+        case['reuse'] = rng.choice([None, None, 'op', 'op', 'instance'] if strat != 'cell' else [None, 'op'])
+        # options of performSpatiallyAdaptiv that must not change what the driver does
+        ro = rng.random()
+        if ro < 0.12:
+            case['reeval'] = True
+        elif ro < 0.22:
+            case['storage'] = True            # (asserted to exclude reevaluate_at_end)
+        if rng.random() < 0.08:
+            case['recalc'] = True
+        if rng.random() < 0.10 and strat != 'cell':      # (cell scheme + evaluation_points raises IndexError in the driver: excluded)
+            case['evalpts'] = True
+        if rng.random() < 0.06:
+            case['test_scheme'] = True
+    big = rng.random()
     if strat == 'dw':
-        case.update(version=rng.choice([6, 6, 3, 7]), rebalancing=rng.random() < 0.6,
+        case.update(version=rng.choice([6, 6, 3, 7, 2, 8, 1]), rebalancing=rng.random() < 0.6,
                     errcalc='lib' if rng.random() < 0.5 else ['scripted', rng.randrange(1 << 20)])
-        case['probe_max'] = rng.choice([40, 60, 90]) if dim == 2 else rng.choice([120, 200])
+        case['probe_max'] = (rng.choice([40, 60, 90]) if big < 0.86 else 300 if big < 0.95 else 600) if dim == 2 else rng.choice([120, 200])
+        if rng.random() < 0.22:
+            case['ggrid'] = rng.choice(['simpson', 'highorder', 'lagrange2', 'bspline3'])
+        if rng.random() < 0.08:
+            case['margin'] = 0.5
+        if rng.random() < 0.08:
+            case['dim_adaptive'] = True
+        if rng.random() < 0.08:
+            case['volume_weighting'] = True
+        if rng.random() < 0.06 and 'ggrid' not in case:
+            case.update(op=['uq', 'Uniform'], ggrid='trapw')
     elif strat == 'es':
         case.update(lmax=rng.choice([2, 2, 3]), nrbe=rng.choice([1, 1, 2]), auto=rng.random() < 0.3,
                     errcalc='lib' if rng.random() < 0.5 else ['scripted', rng.randrange(1 << 20)])
-        case['probe_max'] = rng.choice([100, 160, 250]) if dim == 2 else rng.choice([250, 400])
+        case['probe_max'] = (rng.choice([100, 160, 250]) if big < 0.88 else 600 if big < 0.96 else 1500) if dim == 2 else rng.choice([250, 400])
         case['boundary'] = rng.random() < 0.92     # without boundary points extend-split stops in Function.__call__ (empty batch, see C12)
-    elif strat == 'da':
+        case['version'] = rng.choice([0, 0, 0, 1, 2])
+        if rng.random() < 0.10:
+            case['single_dim'] = True
+        if rng.random() < 0.22:
+            case['grid'] = rng.choice(['cc', 'simpson', 'leja', 'lagrange2', 'bspline3'])
+            if case['grid'] == 'leja' and (dim > 2 or case['probe_max'] > 100 or rng.random() < 0.5):      # Leja points are slow to construct
+                case['grid'] = 'cc'
+    if case.get('evalpts') and (case.get('grid') or case.get('ggrid')):
+        # evaluation_points on non-trapezoidal grids: the interpolation evaluates further integrand points AFTER the append to the
+        # point-count array and BEFORE the stopping test (known finding C13-evaluation-points-count-lags, kept as corpus exemplar)
+        del case['evalpts']
+    if strat == 'cell':
+        case.update(errcalc='lib' if rng.random() < 0.6 else ['scripted', rng.randrange(1 << 20)], boundary=True)
+        case['probe_max'] = rng.choice([60, 120, 200]) if dim == 2 else rng.choice([150, 300])
+    if strat == 'da':
         case['probe_max'] = rng.choice([40, 80, 120]) if dim == 2 else rng.choice([150, 250])
         case['boundary'] = True
-    else:
+    if strat == 'std':
         case['lmax'] = rng.choice([2, 3, 4]) if dim == 2 else rng.choice([2, 3])
     return case
 
@@ -103,9 +154,32 @@ def choose_limits(rng, errs, pts):
 # ---------------------------------------------------------------------------------------------- implementation workers
 
 
-def _run_adaptive(case, limits, keep_points, reuse=None):
-    """reuse: None (fresh objects) | ('op', op) new strategy instance on the probe's operation/grid/function (what the repo's
-    tests do) | ('instance', sa, op, f, eo) second performSpatiallyAdaptiv on the very same instance"""
+def perform_options(case):
+    """non-default options of performSpatiallyAdaptiv that are part of the envelope (they must not change what the driver does)"""
+    kw = {}
+    if case.get('reeval'):
+        kw['reevaluate_at_end'] = True
+    if case.get('recalc'):
+        kw['recalculate_frequently'] = True
+    if case.get('test_scheme'):
+        kw['test_scheme'] = True
+    if case.get('storage'):
+        kw['solutions_storage'] = {}
+    if case.get('evalpts'):
+        kw['evaluation_points'] = eval_points(case)
+    return kw
+
+
+def eval_points(case):
+    """interpolation check points of the evaluation_points option: never grid points (non-dyadic coordinates)"""
+    return [tuple(float(aa + (bb - aa) * t) for aa, bb in zip(case['a'], case['b'])) for t in (1 / 3, 0.7, 0.9)]
+
+
+def _run_adaptive(case, legs, keep_points, reuse=None, options=True):
+    """One history on one object: performSpatiallyAdaptiv(legs[0]) then continue_adaptive_refinement(legs[i]) (see _legs.py).
+    reuse: None (fresh objects) | ('op', op) new strategy instance on the probe's operation/grid/function (what the repo's
+    tests do) | ('instance', sa, op, f, eo) performSpatiallyAdaptiv on the very same instance.
+    Returns per-leg records (events, evaluations seen by the driver, returned tuple) of the history."""
     if reuse is None:
         sa, op, f, eo = A.build(case)
     elif reuse[0] == 'op':
@@ -117,33 +191,56 @@ def _run_adaptive(case, limits, keep_points, reuse=None):
     events, evals = [], []
     orig_eval, orig_refine = sa.evaluate_operation, sa.refine
     mark = [0]
+    # evaluation_points: the driver evaluates the ANALYTIC model there (operation.eval_analytic -> f.eval, for the interpolation
+    # error arrays); these reference evaluations are not evaluations of the quadrature and are not counted
+    skip = set(eval_points(case)) if (options and case.get('evalpts')) else set()
+
+    def nlog():
+        return len(set(f.log) - skip) if skip else len(set(f.log))
 
     def ev():
         r = orig_eval()
         objs = A.all_objects(sa)
-        rec = dict(err=A.fl(r[0]), sur=A.fl(r[1]), distinct=len(set(f.log)), fdict=int(f.get_f_dict_size()),
+        rec = dict(err=A.fl(r[0]), sur=A.fl(r[1]), distinct=nlog(), fdict=int(f.get_f_dict_size()),
                    result=A.vec(op.integral), benefit_max=A.fl(sa.benefit_max), total_error=A.fl(sa.total_error),
                    objs=[[A.fl(o.error), A.fl(o.evaluations), A.fl(o.benefit)] for o in objs])
         if keep_points:
-            rec['batch'] = [A.point_key(p) for p in f.log[mark[0]:]]
+            rec['batch'] = [A.point_key(p) for p in f.log[mark[0]:] if p not in skip]
             mark[0] = len(f.log)
         evals.append(rec)
         events.append(0)
-        if len(f.log) > 60000:
+        if len(f.log) > 250000:
             raise RuntimeError('harness budget exceeded')
         return r
 
     def rf():
         events.append(1)
+        if evals:
+            evals[-1]['distinct_after'] = nlog()      # incl. what the interpolation at evaluation_points evaluated after the evaluation
         return orig_refine()
     sa.evaluate_operation = ev
     sa.refine = rf
-    tol, mn, mx = limits
-    r = A.perform(sa, eo, case, tol, mn, mx)
-    return dict(events=events, evals=evals, result=A.vec(r[3]), evaluations=A.fl(r[4]),
-                error_array=[A.fl(x) for x in r[5]], num_point_array=[int(x) for x in r[6]],
-                surplus_error_array=[A.fl(x) for x in r[7]], total_points=int(sa.get_total_num_points()),
-                distinct=len(set(f.log)), evaluationstotal=A.fl(sa.refinement.evaluationstotal), objects=(sa, op, f, eo))
+    kw = perform_options(case) if options else {}
+    out = []
+    for i, leg in enumerate(legs):
+        e0, v0 = len(events), len(evals)
+        n_final = len(f.log)
+        if i == 0:
+            r = LG.call_perform(sa, eo, case, leg, **kw)
+        else:
+            r = LG.call_continue(sa, leg)
+        if evals and not case.get('reeval'):
+            evals[-1]['distinct_after'] = nlog()
+        rec = dict(events=events[e0:], evals=evals[v0:], result=A.vec(r[3]), evaluations=A.fl(r[4]),
+                   error_array=[A.fl(x) for x in r[5]], num_point_array=[int(x) for x in r[6]],
+                   surplus_error_array=[A.fl(x) for x in r[7]], interp_l2=len(r[8]), interp_max=len(r[9]),
+                   total_points=int(sa.get_total_num_points()), distinct=nlog(),
+                   evaluationstotal=A.fl(sa.refinement.evaluationstotal), integral=A.vec(op.integral))
+        if kw.get('solutions_storage') is not None:
+            st = kw['solutions_storage']
+            rec['storage'] = sorted([int(k), A.vec(v)] for k, v in st.items())
+        out.append(rec)
+    return dict(legs=out, objects=(sa, op, f, eo))
 
 
 def _run_da(case, tolerance, max_points):
@@ -185,6 +282,7 @@ def _run_da(case, tolerance, max_points):
 
 
 def impl_run(case):
+    t0 = time.time()
     rng = random.Random(case['seed'])
     strat = case['strat']
     if strat == 'std':
@@ -209,25 +307,31 @@ def impl_run(case):
             limits = [limits[0], None, pts[-1] - 1]        # the test run must stop inside the probe stream
         test = _run_da(case, limits[0], limits[2])
         return dict(probe=probe, test=test, limits=[A.fl(limits[0]), None, limits[2]])
-    probe = _run_adaptive(case, (-1.0, 1, case['probe_max']), False)
+    # (the probe runs with the same options: evaluation_points adds the integrand evaluations of the interpolation to the counts)
+    probe = _run_adaptive(case, [{'tol': -1.0, 'min': 1, 'max': case['probe_max']}], False)
     objects = probe.pop('objects')
+    probe = probe['legs'][0]
     errs = [A.unfl(x) for x in probe['error_array']]
     pts = probe['num_point_array']
-    limits = case.get('limits')
-    if limits is None:
-        limits = list(choose_limits(rng, errs, pts))
-    else:
-        limits = [A.unfl(limits[0]) if isinstance(limits[0], str) else limits[0], limits[1], limits[2]]
-    # guard: the test run must stop inside the probe stream (it is deterministic, so it sees the same stream)
-    def stops(e, p):
-        return (e <= limits[0] and p >= limits[1]) or (limits[2] is not None and p > limits[2])
-    if not any(stops(e, p) for e, p in zip(errs, pts)):
-        limits[2] = pts[-1] - 1
     mode = case.get('reuse')
-    test = _run_adaptive(case, tuple(limits), True,
+    history = case.get('history')
+    if history is None and case.get('limits') is not None:            # single-leg cases of round 1 (corpus, exemplars, old replays)
+        l = case['limits']
+        history = [{'tol': A.unfl(l[0]) if isinstance(l[0], str) else l[0], 'min': l[1], 'max': l[2]}]
+        if first_stop_py(history, errs, pts) is None:
+            history[0]['max'] = pts[-1] - 1
+    if history is None:
+        # every leg must stop inside the probe stream (the run is deterministic, so it sees the same stream; on a re-used
+        # instance it may not, there every leg gets an explicit point budget)
+        history = LG.draw_history(rng, errs, pts, force_max=(mode == 'instance'))
+    test = _run_adaptive(case, history, True,
                          reuse=None if not mode else ('op', objects[1]) if mode == 'op' else ('instance',) + objects)
     test.pop('objects')
-    return dict(probe=probe, test=test, limits=[A.fl(limits[0]), limits[1], limits[2]])
+    return dict(probe=probe, test=test, history=history, secs=time.time() - t0)
+
+
+def first_stop_py(history, errs, pts):
+    return LG.first_stop(LG.resolve(history[0], True), errs, pts, 0)
 
 # ---------------------------------------------------------------------------------------------- model encoding
 
@@ -288,53 +392,83 @@ def close(impl_float, exact, nm, scale=1.0):
     return abs(v - exact) <= Fraction(EPS) * (abs(exact) + Fraction(scale))
 
 
-def oracle_adaptive(case, limits, run):
-    """property predicate on one implementation run; returns list of (kind, detail)"""
+def oracle_adaptive(case, history, run):
+    """property predicate on one implementation history (performSpatiallyAdaptiv + continue_adaptive_refinement calls on one
+    object); returns list of (kind, detail).  Every call is judged by the limits ITS OWN arguments express."""
     bad = []
-    lim = (A.unfl(limits[0]), limits[1], limits[2])
-    evs = run['evals']
-    n = len(evs)
-    errs = [A.unfl(e['err']) for e in evs]
-    dist = [e['distinct'] for e in evs]
-    # stopping rule on the observed numbers (error the driver saw, distinct points actually evaluated)
-    first = next((k for k in range(n) if py_stop(lim, errs[k], dist[k])), None)
-    trace = run['events']
-    want = [0, 1] * (first if first is not None else n) + ([0] if first is not None else [])
-    if first is None:
-        bad.append(('stop-index', 'driver returned although no evaluation satisfied the stopping rule (limits %s)' % (lim,)))
-    elif trace != want:
-        k_impl = trace.count(0) - 1
-        bad.append(('stop-index', 'rule first satisfied at evaluation %d (error %r, points %d, limits %s) but the driver performed %d evaluations and %d refinements'
-                    % (first, errs[first], dist[first], lim, trace.count(0), trace.count(1))))
-    if trace.count(1) != trace.count(0) - 1 or (trace and trace[-1] != 0):
-        bad.append(('refine-after-stop', 'trace %s' % trace))
-    for name in ('error_array', 'num_point_array', 'surplus_error_array'):
-        if len(run[name]) != n:
-            bad.append(('history-arrays', '%s has %d entries for %d evaluations' % (name, len(run[name]), n)))
-    if run['error_array'] != [e['err'] for e in evs] or run['surplus_error_array'] != [e['sur'] for e in evs]:
-        bad.append(('history-arrays', 'error arrays differ from the values the driver decided on'))
-    pa = run['num_point_array']
-    if any(pa[i] > pa[i + 1] for i in range(len(pa) - 1)):
-        bad.append(('points-decrease', str(pa)))
-    if pa != dist[:len(pa)] or run['total_points'] != run['distinct']:
-        bad.append(('point-count', 'reported %s, distinct integrand evaluations %s' % (pa, dist)))
-    for k, e in enumerate(evs):
-        vals = [A.unfl(e['err']), A.unfl(e['sur']), A.unfl(e['benefit_max'])] + [A.unfl(x) for o in e['objs'] for x in (o[0], o[2])]
-        if any((v < 0) or (v != v) for v in vals):
-            bad.append(('negative', 'evaluation %d: negative or nan error/benefit' % k))
-            break
-    if case['ref'] is not None:
+    all_evs, all_events = [], []
+    nm = case.get('norm', 0)
+    for i, (leg, rec) in enumerate(zip(history, run['legs'])):
+        lim = LG.resolve(leg, i == 0)
+        what = 'call %d (%s %s)' % (i, 'performSpatiallyAdaptiv' if i == 0 else 'continue_adaptive_refinement',
+                                    ', '.join('%s=%r' % (k, leg[k]) for k in ('tol', 'min', 'max') if k in leg) or 'defaults')
+        evs = rec['evals']
+        n = len(evs)
+        errs = [A.unfl(e['err']) for e in evs]
+        # stopping rule on the numbers the run reports (error array, point count array); that the reported counts ARE the
+        # numbers of distinct integrand evaluations is demanded separately below ('point-count')
+        dist = rec['num_point_array'][len(all_evs):len(all_evs) + n]
+        if len(dist) != n:
+            dist = [e['distinct'] for e in evs]
+        first = next((k for k in range(n) if LG.py_stop(lim, errs[k], dist[k])), None)
+        trace = rec['events']
+        want = [0, 1] * (first if first is not None else n) + ([0] if first is not None else [])
+        if first is None:
+            bad.append(('stop-index', '%s returned although no evaluation satisfied its stopping rule (limits %s; last error %r, points %s)'
+                        % (what, lim, errs[-1] if errs else None, dist[-1] if dist else None)))
+        elif trace != want:
+            bad.append(('stop-index', '%s: rule first satisfied at its evaluation %d (error %r, points %d, limits %s) but the driver performed %d evaluations and %d refinements'
+                        % (what, first, errs[first], dist[first], lim, trace.count(0), trace.count(1))))
+        if trace.count(1) != trace.count(0) - 1 or (trace and trace[-1] != 0):
+            bad.append(('refine-after-stop', '%s: trace %s' % (what, trace)))
+        all_evs += evs
+        all_events += trace
+        ntot = len(all_evs)
+        for name in ('error_array', 'num_point_array', 'surplus_error_array'):
+            if len(rec[name]) != ntot:
+                bad.append(('history-arrays', '%s: %s has %d entries for %d evaluations since performSpatiallyAdaptiv' % (what, name, len(rec[name]), ntot)))
+        if case.get('evalpts') and (rec['interp_l2'] != ntot or rec['interp_max'] != ntot):
+            bad.append(('history-arrays', '%s: interpolation error arrays have %d / %d entries for %d evaluations' % (what, rec['interp_l2'], rec['interp_max'], ntot)))
+        if rec['error_array'] != [e['err'] for e in all_evs] or rec['surplus_error_array'] != [e['sur'] for e in all_evs]:
+            bad.append(('history-arrays', '%s: error arrays differ from the values the driver decided on' % what))
+        pa = rec['num_point_array']
+        if any(pa[j] > pa[j + 1] for j in range(len(pa) - 1)):
+            bad.append(('points-decrease', '%s: %s' % (what, pa)))
+        # (with evaluation_points the interpolation evaluates further points right after the evaluation: a count taken before or
+        #  after it is truthful at its time)
+        okp = len(pa) <= len(all_evs) and all(p == e['distinct'] or (case.get('evalpts') and p == e.get('distinct_after')) for p, e in zip(pa, all_evs))
+        if not okp or rec['total_points'] != rec['distinct']:
+            bad.append(('point-count', '%s: reported %s (total %d), distinct integrand evaluations %s (total %d)'
+                        % (what, pa, rec['total_points'], [e['distinct'] for e in all_evs], rec['distinct'])))
         for k, e in enumerate(evs):
-            ex = rel_error_py(case, e['result'])
-            if not close(A.unfl(e['err']), ex, case.get('norm', 0)):
-                bad.append(('error-value', 'evaluation %d: reported error %r, deviation of the result from the reference %s'
-                            % (k, A.unfl(e['err']), float(ex) if case.get('norm', 0) != 2 else float(ex) ** 0.5)))
+            vals = [A.unfl(e['err']), A.unfl(e['sur']), A.unfl(e['benefit_max'])] + [A.unfl(x) for o in e['objs'] for x in (o[0], o[2])]
+            if any((v < 0) or (v != v) for v in vals):
+                bad.append(('negative', '%s evaluation %d: negative or nan error/benefit' % (what, k)))
                 break
-        if evs and run['result'] != evs[-1]['result']:
-            bad.append(('result-differs', 'returned result is not the result the last error was computed from'))
-    else:
-        if any(e['err'] != e['sur'] for e in evs):
-            bad.append(('error-value', 'without reference the error must be the total surplus error'))
+        if case['ref'] is not None:
+            for k, e in enumerate(evs):
+                ex = rel_error_py(case, e['result'])
+                if not close(A.unfl(e['err']), ex, nm):
+                    bad.append(('error-value', '%s evaluation %d: reported error %r, deviation of the result from the reference %s'
+                                % (what, k, A.unfl(e['err']), float(ex) if nm != 2 else float(ex) ** 0.5)))
+                    break
+            if evs:
+                # the returned result is the one the last error was computed from (bit-identical; with reevaluate_at_end the
+                # combination is recomputed from scratch: equal up to rounding)
+                same = rec['result'] == evs[-1]['result'] if not case.get('reeval') else \
+                    all(abs(A.unfl(x) - A.unfl(y)) <= 1e-12 * (abs(A.unfl(x)) + abs(A.unfl(y)) + 1) for x, y in zip(rec['result'], evs[-1]['result']))
+                if not same:
+                    bad.append(('result-differs', '%s: returned result is not the result the last error was computed from' % what))
+        else:
+            if any(e['err'] != e['sur'] for e in evs):
+                bad.append(('error-value', '%s: without reference the error must be the total surplus error' % what))
+        if 'storage' in rec:
+            # solutions_storage: one entry per distinct point count seen, holding the result of (the last) evaluation with that count
+            want_st = {}
+            for e, p in zip(all_evs, pa):
+                want_st[p] = e['result']
+            if rec['storage'] != sorted([k, v] for k, v in want_st.items()):
+                bad.append(('history-arrays', '%s: solutions_storage does not hold the results of the evaluations' % what))
     return bad
 
 # ---------------------------------------------------------------------------------------------- check
@@ -352,6 +486,30 @@ CORPUS = [
          boundary=True, lmin=1, lmax=2, seed=4, probe_max=80),
     dict(strat='std', a=[0, 0], b=[1, 1], comps=[[[1, [2, 0]], [3, [1, 1]]], [[2, [0, 2]], [1, [0, 0]]]], ref=[13 / 12, 5 / 3], norm=2,
          boundary=True, lmin=1, lmax=3, seed=5),
+    # histories of several calls: tighter, then looser tolerance with a larger budget, then tol=0 (int) and defaults left implicit
+    dict(strat='dw', a=[0, 0], b=[1, 1], comps=[[[1, [2, 0]], [3, [1, 3]]]], ref=[0.7083333333333334], norm=0, boundary=True, lmin=1, lmax=2,
+         seed=6, version=6, rebalancing=True, errcalc='lib', probe_max=250,
+         history=[{'tol': 0.01, 'min': 1, 'max': 150}, {'tol': 0.0005, 'max': 150}, {'tol': 0.01, 'max': 400, 'style': 'pos', 'min': 1}, {'tol': 0, 'max': 200}, {}]),
+    dict(strat='es', a=[0, 0], b=[1, 1], comps=[[[1, [2, 0]], [3, [1, 3]]]], ref=[0.7083333333333334], norm=0, boundary=True, lmin=1, lmax=2,
+         seed=7, nrbe=1, auto=False, errcalc='lib', probe_max=250,
+         history=[{'tol': 1e-07, 'max': 40}, {'tol': 0.01, 'max': 300}, {'max': 100}]),
+    dict(strat='es', a=[0, 0], b=[1, 1], comps=[[[1, [2, 0]], [3, [1, 3]]]], ref=[0.7083333333333334], norm=0, boundary=True, lmin=1, lmax=2,
+         seed=8, nrbe=1, auto=False, errcalc='lib', probe_max=250, history=[{'max': 100}, {'tol': 0.0, 'max': 160}]),
+    # the outcome depends on the default tolerance of continue_adaptive_refinement (10**-3, not performSpatiallyAdaptiv's 10**-2)
+    dict(strat='dw', a=[0, 0], b=[1, 1], comps=[[[1, [2, 0]], [3, [1, 3]]]], ref=[0.7083333333333334], norm=0, boundary=True, lmin=1, lmax=2,
+         seed=9, version=6, rebalancing=True, errcalc='lib', probe_max=250, history=[{'max': 40}, {'max': 249}, {'tol': 0.01}]),
+    # exemplars of the known findings of round 2
+    dict(strat='es', a=[0, -1, 0], b=[2, 1, 1], comps=[[[1, [3, 2, 3]], [-2, [2, 1, 3]]]], ref=[0.7916666666666666], norm=0, boundary=True,
+         lmin=1, lmax=3, seed=836896836, reuse=None, reeval=True, nrbe=1, auto=True, errcalc='lib', probe_max=400, version=2,
+         history=[{'tol': -1.0, 'max': 225}]),
+    dict(strat='dw', a=[0, 0], b=[2, 1], comps=[[[1, [1, 0]]]], ref=[2.0], norm=2, boundary=False, lmin=1, lmax=2, seed=613539740, reuse=None,
+         version=7, rebalancing=True, errcalc=['scripted', 137552], probe_max=90, ggrid='simpson', history=[{'tol': -1.0, 'max': 43}]),
+    dict(strat='es', a=[0, -1], b=[1, 1], comps=[[[2, [2, 1]], [3, [1, 3]], [2, [1, 2]]]], ref=[0.6666666666666666], norm=1, boundary=False, lmin=1,
+         lmax=2, seed=37337673, reuse=None, nrbe=1, auto=False, errcalc='lib', probe_max=250, version=2, single_dim=True, grid='cc',
+         history=[{'tol': -1.0, 'max': 30}]),
+    dict(strat='es', a=[0, -1], b=[1, 1], comps=[[[-1, [1, 3]], [2, [2, 2]]]], ref=[0.4444444444444444], norm=0, boundary=True, lmin=1, lmax=2,
+         seed=123648930, reuse=None, evalpts=True, nrbe=1, auto=False, errcalc=['scripted', 931071], probe_max=100, version=2, grid='cc',
+         history=[{'tol': 0.04736328124999972, 'min': 97, 'max': 58}]),
     # exemplar of C13-dimadaptive-strict-tolerance (tolerance equal to the error of the second evaluation)
     dict(strat='da', a=[-1, -1], b=[1, 1], comps=[[[3, [0, 2]]], [[1, [3, 2]]]], ref=[1.0, 1.0], norm=0, boundary=True, lmin=1, lmax=2,
          seed=176363980, probe_max=40, limits=[3.125, None, 56]),
@@ -362,75 +520,141 @@ def sig_of(case):
     return {'strat': case['strat']}
 
 
+def _approx_states(got, pred):
+    """equal up to rounding of the error values (all decisions, counts and traces identical)"""
+    for k in ('pts', 'trace', 'refines', 'stopped'):
+        if got[k] != pred[k]:
+            return False
+    for k in ('errs', 'surs'):
+        if len(got[k]) != len(pred[k]) or any(abs(a - b) > Fraction(1, 10 ** 9) * (abs(a) + abs(b)) for a, b in zip(got[k], pred[k])):
+            return False
+    return True
+
+
 def check_adaptive(chk, case, r, mjobs):
-    """queue model jobs for one adaptive case; returns closure evaluating them"""
-    limits = r['limits']
+    """queue model jobs for one adaptive history; returns closure evaluating them"""
+    history = r['history']
     probe, test = r['probe'], r['test']
+    legs = test['legs']
     pstream = list(zip(probe['error_array'], probe['surplus_error_array'], probe['num_point_array']))
-    tstream = [(e['err'], e['sur'], e['distinct']) for e in test['evals']]
-    ok_numbers = all(finite(e) and finite(s) for e, s, _ in pstream + tstream)
+    tstreams, n0 = [], 0
+    for leg in legs:
+        rep = leg['num_point_array'][n0:n0 + len(leg['evals'])]
+        if len(rep) != len(leg['evals']):
+            rep = [e['distinct'] for e in leg['evals']]
+        tstreams.append([(e['err'], e['sur'], p) for e, p in zip(leg['evals'], rep)])
+        n0 += len(leg['evals'])
+    ok_numbers = all(finite(e) and finite(s) for e, s, _ in pstream + [x for t in tstreams for x in t])
+    ok_numbers = ok_numbers and all(finite(A.fl(float(l['tol']))) for l in history if 'tol' in l)
     jobs = {}
     if ok_numbers:
-        jobs['probe'] = len(mjobs); mjobs.append((0, [enc_call(limits, pstream)]))
-        jobs['test'] = len(mjobs); mjobs.append((0, [enc_call(limits, tstream)]))
-    jobs['points'] = len(mjobs); mjobs.append((5, [e['batch'] for e in test['evals']]))
+        jobs['probe'] = len(mjobs); mjobs.append((7, [[LG.enc_args(l) for l in history], LG.enc_stream(pstream)]))
+        jobs['test'] = len(mjobs); mjobs.append((6, [[LG.enc_args(l), LG.enc_stream(t)] for l, t in zip(history, tstreams)]))
+    all_evals = [e for leg in legs for e in leg['evals']]
+    jobs['points'] = len(mjobs); mjobs.append((5, [e['batch'] for e in all_evals]))
     if case['ref'] is not None:
         jobs['err'] = []
-        for e in test['evals']:
+        for e in all_evals:
             jobs['err'].append(len(mjobs))
             mjobs.append((2, [case.get('norm', 0), [[sx.rat(x) for x in case['ref']]], [q(x) for x in e['result']]]))
-    last = test['evals'][-1]
-    if all(finite(o[0]) and A.unfl(o[1]) == int(A.unfl(o[1])) for o in last['objs']):
+    last = all_evals[-1]
+    # (the cell scheme does not use RefinementContainer.set_benefit: its benefits are not part of the model)
+    if case['strat'] != 'cell' and all(finite(o[0]) and A.unfl(o[1]) == int(A.unfl(o[1])) for o in last['objs']):
         jobs['benefit'] = len(mjobs)
         mjobs.append((4, [[[q(o[0]), int(A.unfl(o[1]))] for o in last['objs']]]))
 
     def evaluate(mres):
         sig = sig_of(case)
-        fcase = dict(case, limits=limits)
-        bad = oracle_adaptive(case, limits, test)
+        fcase = dict(case, history=history)
+        fcase.pop('limits', None)
+        bad = oracle_adaptive(case, history, test)
         okinds = {k for k, _ in bad}
         for kind, detail in bad:
-            chk.violation('oracle:driver', kind, sig, fcase, dict(why=detail))
+            osig = dict(sig, calls='one' if len(history) == 1 else 'several')
+            if kind in ('point-count', 'stop-index', 'history-arrays'):
+                osig.update(grid=case.get('ggrid', case.get('grid', 'trap')), evalpts=bool(case.get('evalpts')))
+            if kind == 'result-differs':
+                osig.update(version=case.get('version'), reeval=bool(case.get('reeval')))
+            chk.violation('oracle:driver', kind, osig, fcase, dict(why=detail))
         if not ok_numbers:
             chk.count('non-finite-stream')
             return
-        # (1) the probe stream + limits predict the whole test run
         mp = mres[jobs['probe']]
         mt = mres[jobs['test']]
         if sx.is_err(mp) or sx.is_err(mt) or isinstance(mp, tuple) or isinstance(mt, tuple):
-            chk.violation('corr:C13/driver', 'model-rejects', sig, fcase, dict(model=str(mp)[:300]), failing_input=False)
+            chk.violation('corr:C13/driver', 'model-rejects', sig, fcase, dict(model=str(mp)[:300] + str(mt)[:300]), failing_input=False)
             return
-        sp, st = dec_state(mp[0]), dec_state(mt[0])
-        n = len(test['evals'])
-        got = dict(errs=[q(x) for x in test['error_array']], surs=[q(x) for x in test['surplus_error_array']],
-                   pts=test['num_point_array'], trace=test['events'], refines=test['events'].count(1), stopped=True)
-        rerun_differs = (case.get('reuse') == 'instance' and pstream[:1] != tstream[:1])
+        # the model resolves the arguments (defaults!) itself: its limits must be the ones the harness' predicate used
+        for i, (leg, ml) in enumerate(zip(history, mp[0])):
+            if not LG.same_limits(ml, LG.resolve(leg, i == 0)):
+                chk.violation('corr:C13/driver', 'limits-resolution-differs', sig, fcase, dict(call=i, model=str(ml), harness=str(LG.resolve(leg, i == 0))), failing_input=False)
+                return
+        rerun_differs = (case.get('reuse') == 'instance' and pstream[:1] != tstreams[0][:1])
         if rerun_differs:
             # a second performSpatiallyAdaptiv on the SAME dimension-wise instance may start from another grid than a fresh
             # instance (stale max_level_dict, only reset in refinement_postprocessing): not a statement of this property,
             # the run is then only compared with the model on its own stream and with the property predicate
             chk.count('rerun-on-same-instance-starts-from-different-state')
-        for name, pred in (('probe-stream-prediction', sp), ('own-stream', st)):
-            if rerun_differs and name == 'probe-stream-prediction':
-                continue
-            diff = [k for k in got if got[k] != pred[k]]
-            if diff:
-                chk.violation('corr:C13/driver', 'driver-differs', dict(sig, against=name), fcase,
-                              dict(differs=sorted(diff), model={k: str(pred[k])[:300] for k in diff}, impl={k: str(got[k])[:300] for k in diff},
-                                   limits=[A.unfl(limits[0]), limits[1], limits[2]]),
-                              failing_input=bool(okinds & {'stop-index', 'history-arrays', 'refine-after-stop', 'point-count'}))
+        cum_trace = []
+        for i, leg in enumerate(legs):
+            cum_trace = cum_trace + leg['events']
+            got = dict(errs=[q(x) for x in leg['error_array']], surs=[q(x) for x in leg['surplus_error_array']],
+                       pts=leg['num_point_array'], trace=cum_trace, refines=cum_trace.count(1), stopped=True)
+            preds = [('own-stream', dec_state(mt[i]))]
+            pp = mp[1][i]
+            if case.get('evalpts') and i >= 1:
+                # the interpolation at the evaluation points evaluates further points after the count of an evaluation is recorded: the
+                # re-evaluation of a continuation records a larger count than the probe stream has at that position
+                chk.count('evaluation_points: continuation not compared with the probe stream (own stream only)')
+            elif not rerun_differs:
+                preds.append(('probe-stream-prediction', dec_state(pp[1]) if len(pp) == 2 else None))
+            stop_here = False
+            for name, pred in preds:
+                if pred is None:
+                    # (cannot happen for generated histories of a deterministic run: every call is made to stop inside the probe
+                    #  stream; if the implementation nevertheless went on, the property predicate above has reported it)
+                    chk.count('history leaves the probe stream (prediction skipped from this call on)')
+                    stop_here = True
+                    break
+                diff = [k for k in got if got[k] != pred[k]]
+                if diff and pred is not None and name == 'probe-stream-prediction' and case.get('reeval') and i >= 1 and _approx_states(got, pred):
+                    chk.count('probe-prediction-equal-up-to-rounding (reevaluate_at_end)')
+                    diff = []
+                if diff and name == 'probe-stream-prediction' and case.get('reeval') and i >= 1 and 'stop-index' not in okinds:
+                    # evaluate_final_combi recomputes the result in another summation order: error values may differ in the last
+                    # bits from the uninterrupted probe; if a limit sits on an observed value the decision is a rounding tie
+                    chk.count('ambiguous: rounding tie after reevaluate_at_end (excluded from the probe prediction)')
+                    stop_here = True
+                    break
+                if diff:
+                    if okinds & {'stop-index', 'history-arrays', 'refine-after-stop', 'point-count'}:
+                        chk.count('model/implementation difference already reported by the property predicate (concrete failing input)')
+                    else:
+                        chk.violation('corr:C13/driver', 'driver-differs', dict(sig, against=name), fcase,
+                                      dict(call=i, differs=sorted(diff), model={k: str(pred[k])[:300] for k in diff} if pred else None,
+                                           impl={k: str(got[k])[:300] for k in diff if k in got}, limits=str(LG.resolve(history[i], i == 0))),
+                                      failing_input=False)
+                    stop_here = True
+                    break
+            if stop_here:
+                break
         # (2) distinct point counts from the raw evaluation log
         mc = mres[jobs['points']]
-        if mc != test['num_point_array']:
+        if case.get('evalpts'):
+            # the interpolation at the evaluation points evaluates further points between two evaluations: which evaluation's count
+            # they belong to depends on where the driver takes the count (before or after the interpolation); the predicate
+            # above accepts both, the batch-wise model count is not compared
+            chk.count('evaluation_points: batch-wise distinct count of the model not compared')
+        elif mc != legs[-1]['num_point_array'] and 'point-count' not in okinds:      # (reported by the property predicate otherwise)
             chk.violation('corr:C13/points', 'point-count-differs', sig, fcase,
-                          dict(model=str(mc)[:300], impl=str(test['num_point_array'])[:300]), failing_input='point-count' in okinds)
+                          dict(model=str(mc)[:300], impl=str(legs[-1]['num_point_array'])[:300]), failing_input='point-count' in okinds)
         # (3) error estimate
         for k, j in enumerate(jobs.get('err', [])):
             me = mres[j]
-            e = A.unfl(test['evals'][k]['err'])
+            e = A.unfl(all_evals[k]['err'])
             if me[0] != 2 or not close(e, sx.q(me[1]), case.get('norm', 0)):
                 chk.violation('corr:C13/error', 'error-estimate-differs', dict(sig, norm=case.get('norm', 0)), fcase,
-                              dict(evaluation=k, model=str(me), impl=e, result=[A.unfl(x) for x in test['evals'][k]['result']]),
+                              dict(evaluation=k, model=str(me), impl=e, result=[A.unfl(x) for x in all_evals[k]['result']]),
                               failing_input='error-value' in okinds)
                 break
         # (4) benefits of all objects at the stop
@@ -518,11 +742,11 @@ def check_std(chk, case, r, mjobs):
 
 def run(chk):
     chk.coq_obligations()
-    n = chk.n(240, 12000)
+    n = chk.n(300, 4000)
     cases = CORPUS + [gen_case(chk.rng, chk.quick) for _ in range(n)]
     impl = run_impl(impl_run, cases, limit=150)
     mjobs, todo = [], []
-    keys, samples = [], []
+    keys, samples, slow = [], [], []
     for c, (st, r) in zip(cases, impl):
         chk.count('strat=' + c['strat']); chk.count('dim=%d' % len(c['a'])); chk.count('norm=%d' % c.get('norm', 0)); chk.count('reuse=%s' % c.get('reuse'))
         chk.count('ref=' + ('none' if c['ref'] is None else 'zero' if all(x == 0 for x in c['ref']) else 'given'))
@@ -531,35 +755,69 @@ def run(chk):
             if st == 'exc' and r[0] == 'RuntimeError' and 'refinement selection does not terminate' in r[2]:
                 chk.count('dimadaptive-selection-hang (all surpluses zero; outside this property)')
                 continue
+            if st == 'exc' and r[0] == 'RuntimeError' and 'harness budget exceeded' in r[2]:
+                chk.count('skipped: harness evaluation budget exceeded (%s, d=%d, probe_max=%s, grid=%s)' % (c['strat'], len(c['a']), c.get('probe_max'), c.get('grid', c.get('ggrid'))))
+                continue
             if st == 'exc' and 'spatiallyAdaptiveBase.py' not in where and 'GridOperation.py:32' not in where:
                 chk.count('library-exception-outside-driver:%s@%s' % (r[0], where))      # estimator crashes etc.: not this property
                 continue
             chk.violation('corr:C13/driver', 'impl-exception', dict(sig_of(c), exc=r[0] if r else st), c, dict(impl=str(r)))
             continue
-        if c['strat'] in ('dw', 'es'):
+        if c['strat'] in ('dw', 'es', 'cell'):
             todo.append(check_adaptive(chk, c, r, mjobs))
-            nev = len(r['test']['evals'])
+            hist = r['history']
+            legs = r['test']['legs']
+            nev = sum(len(l['evals']) for l in legs)
             chk.count('evaluations=%s' % (nev if nev < 6 else '6+'))
+            chk.count('calls-in-history=%d' % len(hist))
+            for k in ('version', 'rebalancing', 'nrbe', 'auto', 'grid', 'ggrid', 'modified_basis', 'reeval', 'recalc', 'storage', 'evalpts',
+                      'test_scheme', 'single_dim', 'no_initial_splitting', 'chebyshev', 'op', 'margin'):
+                if k in c:
+                    chk.count('%s:%s=%s' % (c['strat'], k, c[k] if not isinstance(c[k], list) else c[k][0]))
+            chk.count('nout=%s' % (len(c['comps']) if len(c['comps']) < 4 else '17..130')); chk.count('lmax=%d' % c['lmax'])
+            slow.append((round(r.get('secs', 0), 1), c['strat'], str(c.get('grid', c.get('ggrid'))), len(c['a']), c['probe_max'], len(hist)))
+            chk.count('probe-points=%s' % ('<100' if r['probe']['num_point_array'][-1] < 100 else '<400' if r['probe']['num_point_array'][-1] < 400 else '<1100' if r['probe']['num_point_array'][-1] < 1100 else '1100+'))
+            prev = None
+            for i, (leg, rec) in enumerate(zip(hist, legs)):
+                lim = LG.resolve(leg, i == 0)
+                chk.count('leg-arguments ' + LG.leg_key(leg)); chk.count('leg-call-style=%s' % leg.get('style', 'keywords'))
+                chk.count('leg-tol=%s' % ('negative' if lim[0] < 0 else 'zero-int' if lim[0] == 0 and isinstance(lim[0], int) else 'zero-float' if lim[0] == 0 else 'positive'))
+                e0 = rec['evals'][0]
+                first_met = LG.py_stop(lim, A.unfl(e0['err']), e0['distinct'])
+                chk.count('leg %s: %s' % ('first' if i == 0 else 'continuation', 'limits met at its first evaluation' if first_met else 'refines %d time(s)' % min(3, rec['events'].count(1)) + ('+' if rec['events'].count(1) > 3 else '')))
+                laste = rec['evals'][-1]
+                by_tol = A.unfl(laste['err']) <= lim[0] and laste['distinct'] >= lim[1]
+                by_max = lim[2] is not None and laste['distinct'] > lim[2]
+                chk.count('leg stopped by %s' % ('tolerance+maximum' if by_tol and by_max else 'tolerance' if by_tol else 'maximum' if by_max else 'NOTHING'))
+                if prev is not None:
+                    rel = 'equal' if lim[0] == prev[0] else 'tighter' if lim[0] < prev[0] else 'looser'
+                    chk.count('continuation tolerance vs previous call: %s' % rel)
+                    if lim[0] == 0 and prev[0] > 0 and prev_by_tol:
+                        chk.count('continuation with tol=0 after a tolerance stop' + (' (goes on)' if rec['events'].count(1) else ' (stops at once)'))
+                    chk.count('continuation max vs previous call: %s' % ('equal' if lim[2] == prev[2] else 'none' if lim[2] is None else 'larger' if prev[2] is not None and lim[2] > prev[2] else 'smaller-or-first'))
+                prev, prev_by_tol = lim, by_tol
             if nev >= 2:
-                keys.append((c['strat'], str(c['comps']), str(r['limits']), str(c.get('errcalc')), c.get('version'), c['lmax']))
-            if len(samples) < 3 and nev >= 3:
-                samples.append(dict(strat=c['strat'], limits=[A.unfl(r['limits'][0]), r['limits'][1], r['limits'][2]],
-                                    errors=[A.unfl(x) for x in r['test']['error_array']], points=r['test']['num_point_array'],
-                                    trace=r['test']['events']))
+                keys.append((c['strat'], str(c['comps']), json.dumps(hist, sort_keys=True), str(c.get('errcalc')), c.get('version'), c['lmax']))
+            if len(samples) < 3 and nev >= 3 and len(hist) >= 2:
+                samples.append(dict(strat=c['strat'], history=hist, errors=[A.unfl(x) for x in legs[-1]['error_array']],
+                                    points=legs[-1]['num_point_array'], trace_per_call=[l['events'] for l in legs]))
         elif c['strat'] == 'da':
             todo.append(check_da(chk, c, r, mjobs))
             if r['test']['trace'].count(0) >= 2:
                 keys.append(('da', str(c['comps']), str(r['limits'])))
         else:
             todo.append(check_std(chk, c, r, mjobs))
+    chk.extra['slowest_cases'] = sorted(slow, reverse=True)[:8]
     mres = run_model(13, mjobs)
     for ev in todo:
         ev(mres)
     chk.record_cases(len(cases), keys,
-                     'probe+test run pairs of dimension-wise / extend-split / DimAdaptiveCombi / StandardCombi (d 2..3, lmin 1, lmax 2..4, '
-                     'vector polynomial integrands, reference exact/shifted/zero/none, norms inf/1/2, library and scripted error calculators, '
-                     'limits placed on observed errors and point counts); non-trivial = the test run performed at least two evaluations; '
-                     'distinct by (strategy, integrand, limits, options)', samples)
+                     'probe run + test HISTORY (performSpatiallyAdaptiv followed by 0-3 continue_adaptive_refinement calls on the same object, limits '
+                     'drawn independently per call: on observed errors / point counts, 0, tighter / looser / equal, arguments left implicit) of '
+                     'dimension-wise / extend-split, probe/test pairs of DimAdaptiveCombi / StandardCombi (d 2..3, lmin 1, lmax 2..4, vector polynomial '
+                     'integrands, reference exact/shifted/zero/none, norms inf/1/2, library and scripted error calculators, constructor and '
+                     'performSpatiallyAdaptiv options); non-trivial = the test history performed at least two evaluations; '
+                     'distinct by (strategy, integrand, history, options)', samples)
 
 
 def replay(chk, rep):
@@ -569,7 +827,7 @@ def replay(chk, rep):
     if st != 'ok':
         return 1
     mjobs = []
-    fn = {'dw': check_adaptive, 'es': check_adaptive, 'da': check_da, 'std': check_std}[c['strat']]
+    fn = {'dw': check_adaptive, 'es': check_adaptive, 'cell': check_adaptive, 'da': check_da, 'std': check_std}[c['strat']]
     ev = fn(chk, c, r, mjobs)
     mres = run_model(13, mjobs)
     print('model:', str(mres)[:3000])
